@@ -22,19 +22,21 @@
 //! | domain: pairs sharing the first namespace, overlapping partially at every level, comments on either side | generator `universe` × `Space` for A and B independently; floors `sharing:<level>:<combo>` (4 levels × neither/A-only/B-only/both) | every sweep |
 //! | "yields a set over (s,a,b)" | `compare`: `result:namespaces` | every successful merge |
 //! | "entries are exactly the union of the keys … at every level" | `cmp_keys` (`result:<level>:missing[..]`, `:extra`), `result:key-invariant-broken` (entry stored under a key that is not its first name / descriptor / index) | deep (1 key per map), wide / wide3 / pairs (2–3 keys per map, same name with two descriptors, insertion orders) |
-//! | "A's name in column a, B's name in column b (absent where the side lacks the entry)" | `cmp_entry` names against `reference_merge`; target names are unique per entry and side, so a cross-entry mix-up is visible | q-deep (absent / present), **deep-names**: absent / own / equal to the first name / the same name on both sides (a result must not depend on what the names *are*), pairs (multi-entry maps × absent names) |
-//! | "comments from whichever side has one" | `join_doc` + `cmp_entry` comment, four levels + `wide-top-comments` for the mappings comment | q-deep, **deep-near-comments**, pairs (multi-entry maps × comments) |
+//! | "A's name in column a, B's name in column b (absent where the side lacks the entry)" | `cmp_entry` names against `reference_merge`; target names are unique per entry and side, so a cross-entry mix-up is visible | q-deep (absent / present), **deep-names**: absent / own / equal to the first name / the same name on both sides (a result must not depend on what the names *are*), pairs (multi-entry maps × absent names), **twins** (the same field / method / parameter key in two classes, ×4 orders), **odd** (member keys whose name + descriptor concatenate to the same text, `<init>`, parameter indices equal modulo 2^8 and 2^16, `p/K` next to `p/K$`) |
+//! | "comments from whichever side has one" | `join_doc` + `cmp_entry` comment, four levels + `wide-top-comments` for the mappings comment | q-deep, **deep-near-comments**, pairs (multi-entry maps × comments), `Mode::DocAt` **…-comment-at-every-entry**: a comment at every single entry of `wide` / `twins` / `odd1` (thorough: `wide3`) — first and later entries of every map — on A only / B only / equal / differing × every pair of the shape; `Mode::DocPairs` **deep-comment-pairs**: an *empty* comment is a comment (kept, and it conflicts with a non-empty one) |
 //! | "projecting the result back onto (s,a) and (s,b) gives back A and B" | `projection_law` on `project(result, 1|2)` (lost / changed / invented entries, names in the wrong column) | every successful merge |
 //! | error: conflicting descriptors | `Mode::Mutate` FieldDesc / MethodDesc: `accepted:descriptor-conflict:*` | **every** field / method of both classes of `wide`, either side overwritten |
 //! | error: conflicting parameter indices | `Mode::Mutate` ParamIndex: `accepted:parameter-index-conflict` | **every** parameter of `wide`, either side |
-//! | error: differing comments | `join_doc` → `must_err` `comment-conflict:<level>`: `accepted:comment-conflict:*` | q-deep (d1/d2), **deep-near-comments** and top comments: comments that differ only by a blank (`"d1"`/`"d1 "`/`" d1"`) still differ |
-//! | comments of any length and content (consequence of ∀ inputs): joined or refused, never a panic | `Mode::LongDocs` sweep `deep-long-comments`: at each of the 5 levels a comment of k = 0..=140 ASCII characters + a last character of 1/2/3/4 UTF-8 bytes, on A only / B only / equal / differing | 5 x 141 x 4 x 4 pairs |
-//! | error: differing first namespaces | `Mode::FirstNs`: `accepted:first-namespace` | B's header ∈ `FIRST_NS_VARIANTS` (**now also**: second namespaces equal, A's header swapped, first namespace differing only in case / by a repeated letter) × every pair of `wide` |
+//! | error: differing comments | `join_doc` → `must_err` `comment-conflict:<level>`: `accepted:comment-conflict:*` | q-deep (d1/d2), **deep-near-comments** and top comments: comments that differ only by a blank (`"d1"`/`"d1 "`/`" d1"`) still differ; **deep-comment-pairs**: at each of the 5 levels every ordered pair of the 20 comments of `DOC_ALPHABET` (none, empty, blank, `d1` ± blank / tab / line end / CRLF before or after, `D1`, repeated, inner blanks, a literal `\n`, NFC / NFD of one letter) × 49 pairs, floors per level × kind of difference; **…-comment-at-every-entry**: a conflict in a later entry of a map, the first entries agreeing |
+//! | texts of any length and content (consequence of ∀ inputs): joined or refused, never a panic — also while the error is being worded | `long_text`: one character of 1/2/3/4 UTF-8 bytes after n = 0..=140 ASCII characters (last / + 100 more behind it) and before n ASCII characters (first / 100 before it): every byte offset from the start *and* from the end. `Mode::LongDocs` **deep-long-comments**: at each of the 5 levels, on A only / B only / equal / differing (5 × 564 × 4 × 4 × 49 pairs). `Mode::LongNames` **deep-long-names**: the same texts in each of the 29 `Slot`s: the shared key of class / field / method, a class name inside the field / method descriptor, the name in column a / b at each of the four levels, the first name of the parameter (equal: merged; differing: refused), the first namespace (equal: merged; differing: refused), the second namespace of A / B, and as the stored descriptor / first name of either side that disagrees with the other side (descriptor: refused; first name: silent, no panic) | floors: every text in every slot |
+//! | error: differing first namespaces | `Mode::FirstNs`: `accepted:first-namespace` | the headers of (A, B) ∈ `FIRST_NS_VARIANTS` (second namespaces equal, A's header swapped, first namespace differing only in case / by a repeated letter *in either direction* (prefix) / by a trailing or leading blank on either side / by Unicode normalisation) × every pair of `wide`; long first namespaces: deep-long-names |
+//! | parameters: two different first names under one index cannot both be kept (see the assumptions) | `parameter-first-name-conflict` | q-deep (`p0`/`r0`), **deep-near-parameter-first-names**: `p0` / `P0` / `p 0` / `pp0` / none on either side |
 //! | (consequence of ∀ inputs) the insertion order of the IndexMaps is part of the input | `order:*` | wide ×4 orders, wide3 ×6, pairs ×2 (quick) / ×4 (thorough) |
 //!
 //! Silent in the statement (every behaviour but a panic / silently wrong answer accepted): a parameter whose
-//! first-namespace name exists on one side only (`may_err`); equal *second* namespaces; stored first names
-//! that disagree with their key.
+//! first-namespace name exists on one side only (`may_err`); a namespace name that occurs twice in the two
+//! headers (`Mode::SecondNs`: B's second = A's second, a side's second = the shared first: merged and judged, or
+//! refused); stored first names that disagree with their key.
 
 use std::collections::{BTreeMap, BTreeSet};
 use duke::tree::class::ObjClassName;
@@ -99,9 +101,35 @@ const WIDE3: &[ShapeClass] = &[
 /// (two fields, two parameters): multi-entry maps × comments × absent names × insertion orders
 const PAIRS: &[ShapeClass] = &[ShapeClass { key: "K", fields: &[("f", "I"), ("f", "J")], methods: &[ShapeMethod { name: "m", desc: "(II)V", params: &[0, 1] }] }];
 
+/// the same member keys in two classes (field `f:I`, method `m(I)V`, parameter 0 in both `K` and `L`): an entry of
+/// one class must never be confused with the entry of the same key in the other class
+const TWINS: &[ShapeClass] = &[
+	ShapeClass { key: "K", fields: &[("f", "I")], methods: &[ShapeMethod { name: "m", desc: "(I)V", params: &[0] }] },
+	ShapeClass { key: "L", fields: &[("f", "I")], methods: &[ShapeMethod { name: "m", desc: "(I)V", params: &[0] }] },
+];
+
+/// odd but legal names: member keys whose name + descriptor concatenate to the same text (`f`+`LbLa;` = `fLb`+`La;`,
+/// `m`+`()La()La;` = `m()La`+`()La;`), `<init>`, parameter indices that are equal modulo 256 and 65536, a class name
+/// with a trailing `$` next to the class it extends by that `$`
+const ODD: &[ShapeClass] = &[
+	ShapeClass {
+		key: "p/K",
+		fields: &[("f", "LbLa;"), ("fLb", "La;")],
+		methods: &[
+			ShapeMethod { name: "m", desc: "()La()La;", params: &[] },
+			ShapeMethod { name: "m()La", desc: "()La;", params: &[] },
+			ShapeMethod { name: "<init>", desc: "(IJ)V", params: &[0, 65536] },
+		],
+	},
+	ShapeClass { key: "p/K$", fields: &[], methods: &[] },
+];
+
 fn shape_by_name(n: &str) -> &'static [ShapeClass] {
 	match n {
 		"deep" => DEEP,
+		"twins" => TWINS,
+		"odd" => ODD,
+		"odd1" => &ODD[..1],
 		"wide" => WIDE,
 		"wide1" => WIDE1,
 		"wide3" => WIDE3,
@@ -199,7 +227,7 @@ fn universe(shape: &[ShapeClass], side: Side, o: &SideOpts) -> Universe {
 			methods: c.methods.iter().enumerate().map(|(mi, m)| MethodU {
 				name: m.name.into(),
 				desc: m.desc.into(),
-				rows: tails(&o.method, &format!("{}{ci}{mi}", m.name), m.name),
+				rows: tails(&o.method, &format!("{}{ci}{mi}", m.name.replace(['<', '>', '(', ')'], "")), m.name),
 				docs: docs(&o.method),
 				params: m.params.iter().map(|i| ParamU {
 					index: *i,
@@ -287,30 +315,63 @@ enum Mode {
 	Plain,
 	/// additionally every combination of top-level (mappings) comments
 	TopDocs,
-	/// B's namespaces replaced so that the first namespaces differ: must be refused
+	/// the headers replaced so that the first namespaces differ: must be refused
 	FirstNs,
-	/// B's second namespace has the same name as A's second one (statement silent: Ok or Err)
-	SecondNsEqual,
+	/// a namespace name occurs twice (B's second is A's second; a side's second is the shared first): the statement is
+	/// silent (Ok, judged like any merge, or Err)
+	SecondNs,
 	/// one stored descriptor / parameter index / first name of one side is made to disagree with
 	/// the other side's entry under the same key (the only way such a conflict can exist, since
 	/// keys contain the descriptor / index)
 	Mutate,
-	/// long comments: at one level (mappings, class, field, method, parameter) a comment of `k` ASCII characters
-	/// followed by a character of 1, 2, 3 or 4 UTF-8 bytes, k = 0..=LONG_DOC_MAX, on A only / B only / equal on
-	/// both / differing on both (B's has one more character): whatever is done with a comment (compared, copied,
-	/// quoted in an error message) must not depend on where in it a multi-byte character lies
+	/// long comments: at one level (mappings, class, field, method, parameter) a comment from `long_text` (one
+	/// character of 1, 2, 3 or 4 UTF-8 bytes at every byte offset up to LONG_MAX from the start and from the end
+	/// of the text), on A only / B only / equal on both / differing on both (B's has one more character):
+	/// whatever is done with a comment (compared, copied, quoted or abbreviated in an error message) must not
+	/// depend on where in it a multi-byte character lies
 	LongDocs,
+	/// the same texts in every other text slot of the inputs (`Slot`): names in every column at every level,
+	/// the shared keys, class names inside descriptors, the names of the namespaces, parameter first names that
+	/// are equal / differ, first namespaces that are equal / differ, and stored descriptors / first names that
+	/// disagree with the other side (conflicts whose error message quotes the text)
+	LongNames,
+	/// at one level of `deep` every ordered pair of comments from `DOC_ALPHABET` (none, empty, blank, and comments
+	/// that differ from `d1` only by blanks, a line end, case, Unicode normalisation, repetition)
+	DocPairs,
+	/// at every single entry of the shape (every class, field, method, parameter: first and later entries of
+	/// their maps) a comment on A only / B only / equal on both / differing
+	DocAt,
 }
 
-const LONG_DOC_MAX: usize = 140;
-const LONG_DOC_TAILS: &[&str] = &["z", "\u{e9}", "\u{20ac}", "\u{1f600}"];
+const LONG_MAX: usize = 140;
+const LONG_PAD: usize = 100;
+const LONG_TAILS: &[&str] = &["z", "\u{e9}", "\u{20ac}", "\u{1f600}"];
+const LONG_PLACEMENTS: usize = 4;
 const LONG_DOC_LEVELS: usize = 5;
 const LONG_DOC_RELATIONS: usize = 4;
 
-/// (level, k, tail, relation) of case `x` of `Mode::LongDocs`
-fn long_doc_case(x: u64) -> (usize, usize, usize, usize) {
-	let v = vcore::enumerate::product_nth(&[LONG_DOC_LEVELS, LONG_DOC_MAX + 1, LONG_DOC_TAILS.len(), LONG_DOC_RELATIONS], x);
-	(v[0], v[1], v[2], v[3])
+/// The text with one special character `tail`:
+/// placement 0: n ASCII characters, then the character (it is the last one; n = 0, 1: the first, the second);
+/// placement 1: the same followed by LONG_PAD more ASCII characters (a cut at a fixed offset from the start hits it
+/// also when only texts longer than some limit are cut);
+/// placement 2: the character, then n ASCII characters (a cut at a fixed offset from the *end* hits it);
+/// placement 3: LONG_PAD ASCII characters before that.
+fn long_text(placement: usize, n: usize, tail: &str) -> String {
+	match placement {
+		0 => format!("{}{tail}", "x".repeat(n)),
+		1 => format!("{}{tail}{}", "x".repeat(n), "y".repeat(LONG_PAD)),
+		2 => format!("{tail}{}", "y".repeat(n)),
+		_ => format!("{}{tail}{}", "x".repeat(LONG_PAD), "y".repeat(n)),
+	}
+}
+
+/// number of texts of `long_text` per special character
+const LONG_TEXTS: usize = LONG_PLACEMENTS * (LONG_MAX + 1);
+
+/// (level, placement, n, tail, relation) of case `x` of `Mode::LongDocs`
+fn long_doc_case(x: u64) -> (usize, usize, usize, usize, usize) {
+	let v = vcore::enumerate::product_nth(&[LONG_DOC_LEVELS, LONG_PLACEMENTS, LONG_MAX + 1, LONG_TAILS.len(), LONG_DOC_RELATIONS], x);
+	(v[0], v[1], v[2], v[3], v[4])
 }
 
 fn set_doc_at(s: &mut MSet, level: usize, doc: Option<String>) {
@@ -338,14 +399,299 @@ fn set_doc_at(s: &mut MSet, level: usize, doc: Option<String>) {
 	}
 }
 
-/// namespaces of B whose first one differs from A's ("s", "a"): unrelated; A's first is B's second; B's
-/// first is A's second; only the first differs (second namespaces equal); A's header swapped; the first
-/// namespace differs only in case; only by a repeated letter (one is a prefix of the other)
-const FIRST_NS_VARIANTS: &[(&str, &str)] = &[("t", "b"), ("b", "s"), ("a", "b"), ("t", "a"), ("a", "s"), ("S", "b"), ("ss", "b")];
-const FIRST_NS_COUNTERS: &[&str] = &[
-	"err:first-namespace[t,b]", "err:first-namespace[b,s]", "err:first-namespace[a,b]", "err:first-namespace[t,a]",
-	"err:first-namespace[a,s]", "err:first-namespace[S,b]", "err:first-namespace[ss,b]",
+/// The comments of `Mode::DocPairs`. Two different strings are two differing comments, whatever the difference.
+const DOC_ALPHABET: &[Option<&str>] = &[
+	None, Some(""), Some(" "), Some("d1"), Some("d1 "), Some(" d1"), Some("d1\n"), Some("\nd1"), Some("d1\r\n"), Some("d1\t"), Some("D1"), Some("d2"),
+	Some("d1d1"), Some("d"), Some("d1 d1"), Some("d1  d1"), Some("d1\nd1"), Some("d1\\n"), Some("\u{e9}"), Some("e\u{301}"),
 ];
+
+/// how two differing comments differ (for the vacuity floors only; the verdict never depends on it)
+fn doc_difference(x: &str, y: &str) -> usize {
+	let squeeze = |s: &str| s.chars().filter(|c| !c.is_whitespace()).collect::<String>();
+	if x.is_empty() || y.is_empty() {
+		0
+	} else if squeeze(x) == squeeze(y) {
+		1
+	} else if x.eq_ignore_ascii_case(y) {
+		2
+	} else if (x == "\u{e9}" && y == "e\u{301}") || (y == "\u{e9}" && x == "e\u{301}") {
+		3
+	} else {
+		4
+	}
+}
+
+macro_rules! per_level {
+	($p:literal) => {
+		[concat!($p, ":mappings"), concat!($p, ":class"), concat!($p, ":field"), concat!($p, ":method"), concat!($p, ":parameter")]
+	};
+}
+
+const DOC_DIFFERENCES: [&str; 5] = ["one of them is empty", "white space only", "case only", "Unicode normalisation only", "something else"];
+const DOC_PAIR_REFUSED: [[&str; 5]; 5] = [
+	per_level!("err:comment-pair:one-empty"),
+	per_level!("err:comment-pair:white-space-only"),
+	per_level!("err:comment-pair:case-only"),
+	per_level!("err:comment-pair:normalisation-only"),
+	per_level!("err:comment-pair:other"),
+];
+const EMPTY_DOC_KEPT: [&str; 5] = per_level!("ok:empty-comment-kept");
+const LEVEL5: [&str; 5] = ["mappings", "class", "field", "method", "parameter"];
+
+/// one entry of a shape
+#[derive(Clone, Debug)]
+struct EntryPath {
+	class: &'static str,
+	field: Option<(&'static str, &'static str)>,
+	method: Option<(&'static str, &'static str)>,
+	param: Option<usize>,
+	/// not the first class / first field / first method / first parameter of the shape
+	later: bool,
+}
+
+fn entry_paths(shape: &'static [ShapeClass]) -> Vec<EntryPath> {
+	let mut v = Vec::new();
+	for (ci, c) in shape.iter().enumerate() {
+		let base = EntryPath { class: c.key, field: None, method: None, param: None, later: ci > 0 };
+		v.push(base.clone());
+		for (fi, f) in c.fields.iter().enumerate() {
+			v.push(EntryPath { field: Some(*f), later: fi > 0, ..base.clone() });
+		}
+		for (mi, me) in c.methods.iter().enumerate() {
+			v.push(EntryPath { method: Some((me.name, me.desc)), later: mi > 0, ..base.clone() });
+			for (pi, p) in me.params.iter().enumerate() {
+				v.push(EntryPath { method: Some((me.name, me.desc)), param: Some(*p), later: pi > 0, ..base.clone() });
+			}
+		}
+	}
+	v
+}
+
+/// the comment of the first entry of a level (0 = the mappings)
+fn doc_at(s: &MSet, level: usize) -> Option<&String> {
+	if level == 0 {
+		return s.doc.as_ref();
+	}
+	let c = s.classes.values().next()?;
+	match level {
+		1 => c.doc.as_ref(),
+		2 => c.fields.values().next()?.doc.as_ref(),
+		3 => c.methods.values().next()?.doc.as_ref(),
+		_ => c.methods.values().next()?.params.values().next()?.doc.as_ref(),
+	}
+}
+
+/// the comment of an entry
+fn doc_of<'a>(s: &'a MSet, e: &EntryPath) -> Option<&'a String> {
+	let c = s.classes.get(e.class)?;
+	if let Some(f) = e.field {
+		return c.fields.get(&member_key(f))?.doc.as_ref();
+	}
+	let Some(m) = e.method else { return c.doc.as_ref() };
+	let m = c.methods.get(&member_key(m))?;
+	match e.param {
+		None => m.doc.as_ref(),
+		Some(p) => m.params.get(&p)?.doc.as_ref(),
+	}
+}
+
+/// the comment cell of an entry, if the set has the entry
+fn doc_cell<'a>(s: &'a mut MSet, e: &EntryPath) -> Option<&'a mut Option<String>> {
+	let c = s.classes.get_mut(e.class)?;
+	if let Some(f) = e.field {
+		return c.fields.get_mut(&member_key(f)).map(|f| &mut f.doc);
+	}
+	let Some(m) = e.method else { return Some(&mut c.doc) };
+	let m = c.methods.get_mut(&member_key(m))?;
+	match e.param {
+		None => Some(&mut m.doc),
+		Some(p) => m.params.get_mut(&p).map(|p| &mut p.doc),
+	}
+}
+
+/// A text slot of a pair of sets (`Mode::LongNames`). `…Key`, `…Desc`: the shared key of the entry, on both sides.
+#[derive(Clone, Copy, PartialEq, Eq, Debug)]
+enum Slot {
+	ClassKey, ClassA, ClassB,
+	FieldKey, FieldDesc, FieldA, FieldB,
+	MethodKey, MethodDesc, MethodA, MethodB,
+	/// the first-namespace name of the parameter: the same text on both sides / B's has one more character
+	ParamFirstEqual, ParamFirstDiffer, ParamA, ParamB,
+	NsFirstEqual, NsFirstDiffer, NsA, NsB,
+	/// the stored descriptor of one side is overwritten with one holding the text: a stated conflict whose
+	/// message quotes the text
+	StoredFieldDesc(Side), StoredMethodDesc(Side),
+	/// the stored first name of one side is overwritten (outside the statement: no panic)
+	StoredClassFirst(Side), StoredFieldFirst(Side), StoredMethodFirst(Side),
+}
+
+const SLOTS: &[Slot] = &[
+	Slot::ClassKey, Slot::ClassA, Slot::ClassB, Slot::FieldKey, Slot::FieldDesc, Slot::FieldA, Slot::FieldB,
+	Slot::MethodKey, Slot::MethodDesc, Slot::MethodA, Slot::MethodB,
+	Slot::ParamFirstEqual, Slot::ParamFirstDiffer, Slot::ParamA, Slot::ParamB,
+	Slot::NsFirstEqual, Slot::NsFirstDiffer, Slot::NsA, Slot::NsB,
+	Slot::StoredFieldDesc(Side::A), Slot::StoredFieldDesc(Side::B), Slot::StoredMethodDesc(Side::A), Slot::StoredMethodDesc(Side::B),
+	Slot::StoredClassFirst(Side::A), Slot::StoredClassFirst(Side::B), Slot::StoredFieldFirst(Side::A), Slot::StoredFieldFirst(Side::B),
+	Slot::StoredMethodFirst(Side::A), Slot::StoredMethodFirst(Side::B),
+];
+
+/// per slot: (counter of merges, counter of refusals)
+const SLOT_COUNTERS: &[(&str, &str)] = &[
+	("long-text:class-key:ok", "long-text:class-key:err"), ("long-text:class-name-a:ok", "long-text:class-name-a:err"), ("long-text:class-name-b:ok", "long-text:class-name-b:err"),
+	("long-text:field-key:ok", "long-text:field-key:err"), ("long-text:field-descriptor:ok", "long-text:field-descriptor:err"), ("long-text:field-name-a:ok", "long-text:field-name-a:err"), ("long-text:field-name-b:ok", "long-text:field-name-b:err"),
+	("long-text:method-key:ok", "long-text:method-key:err"), ("long-text:method-descriptor:ok", "long-text:method-descriptor:err"), ("long-text:method-name-a:ok", "long-text:method-name-a:err"), ("long-text:method-name-b:ok", "long-text:method-name-b:err"),
+	("long-text:parameter-first-name-equal:ok", "long-text:parameter-first-name-equal:err"), ("long-text:parameter-first-names-differ:ok", "long-text:parameter-first-names-differ:err"),
+	("long-text:parameter-name-a:ok", "long-text:parameter-name-a:err"), ("long-text:parameter-name-b:ok", "long-text:parameter-name-b:err"),
+	("long-text:first-namespace-equal:ok", "long-text:first-namespace-equal:err"), ("long-text:first-namespaces-differ:ok", "long-text:first-namespaces-differ:err"),
+	("long-text:namespace-a:ok", "long-text:namespace-a:err"), ("long-text:namespace-b:ok", "long-text:namespace-b:err"),
+	("long-text:stored-field-descriptor-of-A:ok", "long-text:stored-field-descriptor-of-A:err"), ("long-text:stored-field-descriptor-of-B:ok", "long-text:stored-field-descriptor-of-B:err"),
+	("long-text:stored-method-descriptor-of-A:ok", "long-text:stored-method-descriptor-of-A:err"), ("long-text:stored-method-descriptor-of-B:ok", "long-text:stored-method-descriptor-of-B:err"),
+	("long-text:stored-class-first-name-of-A:ok", "long-text:stored-class-first-name-of-A:err"), ("long-text:stored-class-first-name-of-B:ok", "long-text:stored-class-first-name-of-B:err"),
+	("long-text:stored-field-first-name-of-A:ok", "long-text:stored-field-first-name-of-A:err"), ("long-text:stored-field-first-name-of-B:ok", "long-text:stored-field-first-name-of-B:err"),
+	("long-text:stored-method-first-name-of-A:ok", "long-text:stored-method-first-name-of-A:err"), ("long-text:stored-method-first-name-of-B:ok", "long-text:stored-method-first-name-of-B:err"),
+];
+
+/// what the statement demands of a pair in which both sides have every entry and the slot holds a text
+#[derive(Clone, Copy, PartialEq, Eq)]
+enum SlotDemand {
+	Merge,
+	Refuse,
+	Silent,
+}
+
+impl Slot {
+	fn demand(self) -> SlotDemand {
+		match self {
+			Slot::ParamFirstDiffer | Slot::NsFirstDiffer | Slot::StoredFieldDesc(_) | Slot::StoredMethodDesc(_) => SlotDemand::Refuse,
+			Slot::StoredClassFirst(_) | Slot::StoredFieldFirst(_) | Slot::StoredMethodFirst(_) => SlotDemand::Silent,
+			_ => SlotDemand::Merge,
+		}
+	}
+	/// the stored value of a real object this slot overwrites
+	fn mutation(self) -> Option<MutCase> {
+		let (m, side) = match self {
+			Slot::StoredFieldDesc(s) => (Mutation::FieldDesc, s),
+			Slot::StoredMethodDesc(s) => (Mutation::MethodDesc, s),
+			Slot::StoredClassFirst(s) => (Mutation::ClassFirstName, s),
+			Slot::StoredFieldFirst(s) => (Mutation::FieldFirstName, s),
+			Slot::StoredMethodFirst(s) => (Mutation::MethodFirstName, s),
+			_ => return None,
+		};
+		let d = &DEEP[0];
+		let field = matches!(m, Mutation::FieldDesc | Mutation::FieldFirstName).then(|| d.fields[0]);
+		let method = matches!(m, Mutation::MethodDesc | Mutation::MethodFirstName).then(|| (d.methods[0].name, d.methods[0].desc));
+		Some(MutCase { m, side, class: d.key, field, method, param: None, later_entry: false })
+	}
+}
+
+/// (slot, placement, n, tail) of case `x` of `Mode::LongNames`
+fn long_name_case(x: u64) -> (usize, usize, usize, usize) {
+	let v = vcore::enumerate::product_nth(&[SLOTS.len(), LONG_PLACEMENTS, LONG_MAX + 1, LONG_TAILS.len()], x);
+	(v[0], v[1], v[2], v[3])
+}
+
+fn rekey<V>(m: &mut BTreeMap<(String, String), V>, from: (&str, &str), to: (String, String)) -> Option<()> {
+	let v = m.remove(&member_key(from))?;
+	m.insert(to, v);
+	Some(())
+}
+
+/// writes the text into the slot of the model pair (where the entry exists)
+fn fill_slot(a: &mut MSet, b: &mut MSet, slot: Slot, text: &str, tail: &str) {
+	let d = &DEEP[0];
+	let (fk, mk) = (d.fields[0], (d.methods[0].name, d.methods[0].desc));
+	let longer = format!("{text}{tail}");
+	let each = |s: &mut MSet, f: &dyn Fn(&mut MClass)| {
+		if let Some(c) = s.classes.get_mut(d.key) {
+			f(c);
+		}
+	};
+	let col = |row: &mut Row, i: usize, t: &str| row[i] = Some(t.to_owned());
+	match slot {
+		Slot::ClassKey => {
+			for s in [a, b] {
+				if let Some(mut c) = s.classes.remove(d.key) {
+					col(&mut c.names, 0, text);
+					s.classes.insert(text.to_owned(), c);
+				}
+			}
+		},
+		Slot::ClassA => each(a, &|c| col(&mut c.names, 1, text)),
+		Slot::ClassB => each(b, &|c| col(&mut c.names, 1, text)),
+		Slot::FieldKey => {
+			for s in [a, b] {
+				each(s, &|c| {
+					if rekey(&mut c.fields, fk, (text.to_owned(), fk.1.to_owned())).is_some() {
+						c.fields.values_mut().for_each(|f| col(&mut f.names, 0, text));
+					}
+				});
+			}
+		},
+		Slot::FieldDesc => {
+			for s in [a, b] {
+				each(s, &|c| {
+					rekey(&mut c.fields, fk, (fk.0.to_owned(), format!("L{text};")));
+				});
+			}
+		},
+		Slot::FieldA => each(a, &|c| c.fields.values_mut().for_each(|f| col(&mut f.names, 1, text))),
+		Slot::FieldB => each(b, &|c| c.fields.values_mut().for_each(|f| col(&mut f.names, 1, text))),
+		Slot::MethodKey => {
+			for s in [a, b] {
+				each(s, &|c| {
+					if rekey(&mut c.methods, mk, (text.to_owned(), mk.1.to_owned())).is_some() {
+						c.methods.values_mut().for_each(|m| col(&mut m.names, 0, text));
+					}
+				});
+			}
+		},
+		Slot::MethodDesc => {
+			for s in [a, b] {
+				each(s, &|c| {
+					rekey(&mut c.methods, mk, (mk.0.to_owned(), format!("(L{text};)V")));
+				});
+			}
+		},
+		Slot::MethodA => each(a, &|c| c.methods.values_mut().for_each(|m| col(&mut m.names, 1, text))),
+		Slot::MethodB => each(b, &|c| c.methods.values_mut().for_each(|m| col(&mut m.names, 1, text))),
+		Slot::ParamFirstEqual | Slot::ParamFirstDiffer => {
+			let tb = if slot == Slot::ParamFirstDiffer { longer.as_str() } else { text };
+			each(a, &|c| c.methods.values_mut().flat_map(|m| m.params.values_mut()).for_each(|p| col(&mut p.names, 0, text)));
+			each(b, &|c| c.methods.values_mut().flat_map(|m| m.params.values_mut()).for_each(|p| col(&mut p.names, 0, tb)));
+		},
+		Slot::ParamA => each(a, &|c| c.methods.values_mut().flat_map(|m| m.params.values_mut()).for_each(|p| col(&mut p.names, 1, text))),
+		Slot::ParamB => each(b, &|c| c.methods.values_mut().flat_map(|m| m.params.values_mut()).for_each(|p| col(&mut p.names, 1, text))),
+		Slot::NsFirstEqual => {
+			a.ns[0] = text.to_owned();
+			b.ns[0] = text.to_owned();
+		},
+		Slot::NsFirstDiffer => {
+			a.ns[0] = text.to_owned();
+			b.ns[0] = longer;
+		},
+		Slot::NsA => a.ns[1] = text.to_owned(),
+		Slot::NsB => b.ns[1] = text.to_owned(),
+		Slot::StoredFieldDesc(_) | Slot::StoredMethodDesc(_) | Slot::StoredClassFirst(_) | Slot::StoredFieldFirst(_) | Slot::StoredMethodFirst(_) => {},
+	}
+}
+
+/// Headers of (A, B) whose first namespaces differ: unrelated; A's first is B's second; B's first is A's second;
+/// only the first differs (second namespaces equal); A's header swapped; the first namespace differs only in
+/// case; only by a repeated letter (A's is a prefix of B's, B's is a prefix of A's); only by a trailing /
+/// leading blank (a namespace name is any non-empty cell of the header line); only by Unicode normalisation
+const FIRST_NS_VARIANTS: &[((&str, &str), (&str, &str))] = &[
+	(("s", "a"), ("t", "b")), (("s", "a"), ("b", "s")), (("s", "a"), ("a", "b")), (("s", "a"), ("t", "a")), (("s", "a"), ("a", "s")),
+	(("s", "a"), ("S", "b")), (("s", "a"), ("ss", "b")), (("ss", "a"), ("s", "b")), (("s", "a"), ("s ", "b")), (("s", "a"), (" s", "b")),
+	(("s ", "a"), ("s", "b")), (("\u{e9}", "a"), ("e\u{301}", "b")),
+];
+const FIRST_NS_COUNTERS: &[&str] = &[
+	"err:first-namespace[s,a|t,b]", "err:first-namespace[s,a|b,s]", "err:first-namespace[s,a|a,b]", "err:first-namespace[s,a|t,a]", "err:first-namespace[s,a|a,s]",
+	"err:first-namespace[s,a|S,b]", "err:first-namespace[s,a|ss,b]", "err:first-namespace[ss,a|s,b]", "err:first-namespace[s,a|s_,b]", "err:first-namespace[s,a|_s,b]",
+	"err:first-namespace[s_,a|s,b]", "err:first-namespace[NFC,a|NFD,b]",
+];
+
+/// `Mode::SecondNs`: headers of (A, B) that share the first namespace and repeat a name
+const SECOND_NS_VARIANTS: &[((&str, &str), (&str, &str))] = &[(("s", "a"), ("s", "a")), (("s", "a"), ("s", "s")), (("s", "s"), ("s", "b"))];
 
 struct Sweep {
 	label: String,
@@ -356,6 +702,8 @@ struct Sweep {
 	orders: Vec<(Order, Order)>,
 	/// `Mode::Mutate`: the overwritten values (index = x)
 	muts: Vec<MutCase>,
+	/// `Mode::DocAt`: the entries of the shape
+	entries: Vec<EntryPath>,
 	/// `Mode::TopDocs`: the alphabet of the mappings comment of either side
 	top_docs: &'static [Option<&'static str>],
 	bounds: Value,
@@ -364,11 +712,15 @@ struct Sweep {
 impl Sweep {
 	fn nx(&self) -> u64 {
 		match self.mode {
-			Mode::Plain | Mode::SecondNsEqual => 1,
+			Mode::Plain => 1,
+			Mode::SecondNs => SECOND_NS_VARIANTS.len() as u64,
 			Mode::TopDocs => (self.top_docs.len() * self.top_docs.len()) as u64,
 			Mode::FirstNs => FIRST_NS_VARIANTS.len() as u64,
 			Mode::Mutate => self.muts.len() as u64,
-			Mode::LongDocs => (LONG_DOC_LEVELS * (LONG_DOC_MAX + 1) * LONG_DOC_TAILS.len() * LONG_DOC_RELATIONS) as u64,
+			Mode::LongDocs => (LONG_DOC_LEVELS * LONG_TEXTS * LONG_TAILS.len() * LONG_DOC_RELATIONS) as u64,
+			Mode::LongNames => (SLOTS.len() * LONG_TEXTS * LONG_TAILS.len()) as u64,
+			Mode::DocPairs => (LONG_DOC_LEVELS * DOC_ALPHABET.len() * DOC_ALPHABET.len()) as u64,
+			Mode::DocAt => (self.entries.len() * LONG_DOC_RELATIONS) as u64,
 		}
 	}
 	fn cases(&self) -> u64 {
@@ -399,8 +751,20 @@ fn sweep(label: &str, shape_name: &str, oa: SideOpts, ob: SideOpts, mode: Mode, 
 		mode,
 		orders: orders.to_vec(),
 		muts: if mode == Mode::Mutate { mut_cases(shape) } else { Vec::new() },
+		entries: if mode == Mode::DocAt { entry_paths(shape) } else { Vec::new() },
 		top_docs: DOCS4,
 	}
+}
+
+/// only the empty set and the set with every entry of the shape, on either side
+fn extremes(mut sw: Sweep) -> Sweep {
+	let full = sw.shape.iter().map(|c| 1 + c.fields.len() + c.methods.iter().map(|m| 1 + m.params.len()).sum::<usize>()).sum::<usize>();
+	sw.a.retain(|s| s.entries() == 0 || s.entries() == full);
+	sw.b.retain(|s| s.entries() == 0 || s.entries() == full);
+	sw.bounds["A"]["sets"] = json!(sw.a.len());
+	sw.bounds["B"]["sets"] = json!(sw.b.len());
+	sw.bounds["sets_kept"] = json!("the empty set and the set with every entry");
+	sw
 }
 
 fn sweeps(tier: vcore::Tier) -> Vec<Sweep> {
@@ -412,6 +776,7 @@ fn sweeps(tier: vcore::Tier) -> Vec<Sweep> {
 	const SRC2: &[Option<&str>] = &[None, Some("p")];
 	const SRC3: &[Option<&str>] = &[None, Some("p"), Some("r")];
 	const SRC1: &[Option<&str>] = &[Some("p")];
+	const SRC_NEAR: &[Option<&str>] = &[None, Some("p"), Some("P"), Some("p "), Some("pp")];
 	let one: &[(Order, Order)] = &[(Sorted, Sorted)];
 	let two: &[(Order, Order)] = &[(Sorted, Sorted), (Sorted, Reversed)];
 	let four: &[(Order, Order)] = &[(Sorted, Sorted), (Reversed, Reversed), (Sorted, Reversed), (Reversed, Sorted)];
@@ -444,16 +809,30 @@ fn sweeps(tier: vcore::Tier) -> Vec<Sweep> {
 			// every kind of name × comments: the comments on one side at a time (both at once: t-deep, names absent / own)
 			v.push(sweep("t-deep-names-comments-of-B", "deep", SideOpts::uniform(NAMES4, DOCS0, SRC2), SideOpts::uniform(NAMES4, DOCS2, SRC2), Mode::Plain, one));
 			v.push(sweep("t-deep-names-comments-of-A", "deep", SideOpts::uniform(NAMES4, DOCS2, SRC2), SideOpts::uniform(NAMES4, DOCS0, SRC2), Mode::Plain, one));
+			v.push(sweep("t-wide3-comment-at-every-entry", "wide3", simple(), simple(), Mode::DocAt, one));
+			v.push(sweep("t-twins-comments-orders", "twins", SideOpts::uniform(NAMED, DOCS2, SRC1), SideOpts::uniform(NAMED, DOCS2, SRC1), Mode::Plain, &four[..1]));
 		},
 	}
-	// the same in both tiers (small)
-	v.push(sweep("wide3-rotated-orders", "wide3", simple(), simple(), Mode::Plain, six));
-	v.push(sweep("wide-top-comments", "wide", simple(), simple(), Mode::TopDocs, one));
-	v.push(sweep("deep-long-comments", "deep", simple(), simple(), Mode::LongDocs, one));
-	v.push(sweep("wide-first-namespace-differs", "wide", simple(), simple(), Mode::FirstNs, one));
-	v.push(sweep("wide-second-namespaces-equal", "wide", simple(), simple(), Mode::SecondNsEqual, one));
-	v.push(sweep("wide-stored-value-conflicts", "wide", simple(), simple(), Mode::Mutate, one));
-	v
+	// the same in both tiers; the small ones run first (a difference shows early), the wide tier sweeps last
+	let mut c = Vec::new();
+	// the first-namespace names of a parameter that differ only by case, a blank, a repeated letter
+	let near_src = || SideOpts { param_src: SRC_NEAR, ..simple() };
+	c.push(sweep("deep-near-parameter-first-names", "deep", near_src(), near_src(), Mode::Plain, one));
+	c.push(sweep("twins-orders", "twins", simple(), simple(), Mode::Plain, four));
+	c.push(sweep("wide-second-namespace-repeats-a-name", "wide", simple(), simple(), Mode::SecondNs, one));
+	c.push(sweep("odd-names-orders", "odd", simple(), simple(), Mode::Plain, two));
+	c.push(sweep("twins-comment-at-every-entry", "twins", simple(), simple(), Mode::DocAt, one));
+	c.push(sweep("deep-comment-pairs", "deep", simple(), simple(), Mode::DocPairs, one));
+	c.push(sweep("wide-first-namespace-differs", "wide", simple(), simple(), Mode::FirstNs, one));
+	c.push(sweep("odd1-comment-at-every-entry", "odd1", simple(), simple(), Mode::DocAt, one));
+	c.push(extremes(sweep("deep-long-names", "deep", simple(), simple(), Mode::LongNames, one)));
+	c.push(sweep("wide-stored-value-conflicts", "wide", simple(), simple(), Mode::Mutate, one));
+	c.push(sweep("wide-top-comments", "wide", simple(), simple(), Mode::TopDocs, one));
+	c.push(sweep("wide3-rotated-orders", "wide3", simple(), simple(), Mode::Plain, six));
+	c.push(sweep("wide-comment-at-every-entry", "wide", simple(), simple(), Mode::DocAt, one));
+	c.push(sweep("deep-long-comments", "deep", simple(), simple(), Mode::LongDocs, one));
+	c.extend(v);
+	c
 }
 
 // ---------------------------------------------------------------------------------------------
@@ -505,6 +884,10 @@ fn reference_merge(a: &MSet, b: &MSet) -> Expect {
 	let mut may = BTreeSet::new();
 	if a.ns[0] != b.ns[0] {
 		cf.must.insert("first-namespace");
+	}
+	// the statement speaks of namespaces s, a, b: a name that occurs twice is outside it
+	if a.ns[1] == b.ns[1] || a.ns[0] == a.ns[1] || b.ns[0] == b.ns[1] {
+		may.insert("namespace-name-repeated");
 	}
 	let mut set = MSet { ns: vec![a.ns[0].clone(), a.ns[1].clone(), b.ns[1].clone()], doc: join_doc(Some(&a.doc), Some(&b.doc), "comment-conflict:mappings", &mut cf), classes: BTreeMap::new() };
 	for k in union_keys(Some(&a.classes), Some(&b.classes)) {
@@ -812,8 +1195,9 @@ fn gen_bug<T>(r: anyhow::Result<T>) -> T {
 	r.unwrap_or_else(|e| vcore::machinery_fail(&format!("generator produced an invalid value: {e:#}")))
 }
 
-/// Overwrites one stored value of the real object (public fields only), leaving the key alone.
-fn mutate<Ns>(q: &mut Mappings<2, Ns>, t: &MutCase) {
+/// Overwrites one stored value of the real object (public fields only), leaving the key alone. `text`: the class /
+/// member name to write (or to put into the descriptor) instead of the short default.
+fn mutate<Ns>(q: &mut Mappings<2, Ns>, t: &MutCase, text: Option<&str>) {
 	let missing = || -> ! { vcore::machinery_fail("mutation target missing") };
 	let c = q.classes.get_mut(&gen_bug(mapmodel::cls(t.class))).unwrap_or_else(|| missing());
 	let fkey = || { let f = t.field.unwrap_or_else(|| missing()); FieldNameAndDesc { name: gen_bug(mapmodel::fname(f.0)), desc: gen_bug(mapmodel::fdesc(f.1)) } };
@@ -821,19 +1205,19 @@ fn mutate<Ns>(q: &mut Mappings<2, Ns>, t: &MutCase) {
 	match t.m {
 		Mutation::ClassFirstName => {
 			let [_, n1] = <&[Option<ObjClassName>; 2]>::from(&c.info.names).clone();
-			c.info.names = gen_bug(Names::try_from([Some(gen_bug(mapmodel::cls("Other"))), n1]));
+			c.info.names = gen_bug(Names::try_from([Some(gen_bug(mapmodel::cls(text.unwrap_or("Other")))), n1]));
 		},
-		Mutation::FieldDesc => c.fields.get_mut(&fkey()).unwrap_or_else(|| missing()).info.desc = gen_bug(mapmodel::fdesc("Z")),
+		Mutation::FieldDesc => c.fields.get_mut(&fkey()).unwrap_or_else(|| missing()).info.desc = gen_bug(mapmodel::fdesc(&text.map_or("Z".to_owned(), |t| format!("L{t};")))),
 		Mutation::FieldFirstName => {
 			let f = c.fields.get_mut(&fkey()).unwrap_or_else(|| missing());
 			let [_, n1] = <&[Option<FieldName>; 2]>::from(&f.info.names).clone();
-			f.info.names = gen_bug(Names::try_from([Some(gen_bug(mapmodel::fname("other"))), n1]));
+			f.info.names = gen_bug(Names::try_from([Some(gen_bug(mapmodel::fname(text.unwrap_or("other")))), n1]));
 		},
-		Mutation::MethodDesc => c.methods.get_mut(&mkey()).unwrap_or_else(|| missing()).info.desc = gen_bug(mapmodel::mdesc("(Z)V")),
+		Mutation::MethodDesc => c.methods.get_mut(&mkey()).unwrap_or_else(|| missing()).info.desc = gen_bug(mapmodel::mdesc(&text.map_or("(Z)V".to_owned(), |t| format!("(L{t};)V")))),
 		Mutation::MethodFirstName => {
 			let me = c.methods.get_mut(&mkey()).unwrap_or_else(|| missing());
 			let [_, n1] = <&[Option<MethodName>; 2]>::from(&me.info.names).clone();
-			me.info.names = gen_bug(Names::try_from([Some(gen_bug(mapmodel::mname("other"))), n1]));
+			me.info.names = gen_bug(Names::try_from([Some(gen_bug(mapmodel::mname(text.unwrap_or("other")))), n1]));
 		},
 		Mutation::ParamIndex => {
 			let me = c.methods.get_mut(&mkey()).unwrap_or_else(|| missing());
@@ -847,13 +1231,13 @@ fn mutate<Ns>(q: &mut Mappings<2, Ns>, t: &MutCase) {
 type Real = Result<Result<MSet, String>, mapmodel::KeyMismatch>;
 
 /// Builds fresh real objects and calls the real merge.
-fn real_merge(a: &MSet, b: &MSet, oa: Order, ob: Order, mutation: Option<&MutCase>, project_result: bool) -> Result<Real, vcore::Panic> {
+fn real_merge(a: &MSet, b: &MSet, oa: Order, ob: Order, mutation: Option<(&MutCase, Option<&str>)>, project_result: bool) -> Result<Real, vcore::Panic> {
 	let mut qa: Mappings<2, (NsS, NsA)> = gen_bug(mapmodel::to_quill_ordered(a, oa));
 	let mut qb: Mappings<2, (NsS, NsB)> = gen_bug(mapmodel::to_quill_ordered(b, ob));
-	if let Some(t) = mutation {
+	if let Some((t, text)) = mutation {
 		match t.side {
-			Side::A => mutate(&mut qa, t),
-			Side::B => mutate(&mut qb, t),
+			Side::A => mutate(&mut qa, t, text),
+			Side::B => mutate(&mut qb, t, text),
 		}
 	}
 	vcore::guard(|| match Mappings::<2, (NsS, NsA, NsB)>::merge(&qa, &qb) {
@@ -1009,6 +1393,22 @@ fn digest_of(r: &Result<Real, vcore::Panic>) -> u64 {
 	}
 }
 
+/// (level, index of A's comment, index of B's comment) of case `x` of `Mode::DocPairs`
+fn doc_pair_case(x: u64) -> (usize, usize, usize) {
+	let v = vcore::enumerate::product_nth(&[LONG_DOC_LEVELS, DOC_ALPHABET.len(), DOC_ALPHABET.len()], x);
+	(v[0], v[1], v[2])
+}
+
+/// the comments of (A, B): 0 = A only, 1 = B only, 2 = the same on both, 3 = `doc` on A and `other` on B
+fn relation_docs(relation: usize, doc: String, other: String) -> (Option<String>, Option<String>) {
+	match relation {
+		0 => (Some(doc), None),
+		1 => (None, Some(doc)),
+		2 => (Some(doc.clone()), Some(doc)),
+		_ => (Some(doc), Some(other)),
+	}
+}
+
 /// the two inputs of a case (well-formed model sets; `Mode::Mutate` changes the real objects later)
 fn inputs(sw: &Sweep, ia: usize, ib: usize, x: u64) -> (MSet, MSet) {
 	let mut a = sw.a[ia].clone();
@@ -1019,25 +1419,51 @@ fn inputs(sw: &Sweep, ia: usize, ib: usize, x: u64) -> (MSet, MSet) {
 			a.doc = sw.top_docs[x as usize / sw.top_docs.len()].map(|s| s.to_owned());
 			b.doc = sw.top_docs[x as usize % sw.top_docs.len()].map(|s| s.to_owned());
 		},
-		Mode::FirstNs => {
-			let (n0, n1) = FIRST_NS_VARIANTS[x as usize];
-			b.ns = vec![n0.to_owned(), n1.to_owned()];
+		Mode::FirstNs | Mode::SecondNs => {
+			let ((a0, a1), (b0, b1)) = if sw.mode == Mode::FirstNs { FIRST_NS_VARIANTS[x as usize] } else { SECOND_NS_VARIANTS[x as usize] };
+			a.ns = vec![a0.to_owned(), a1.to_owned()];
+			b.ns = vec![b0.to_owned(), b1.to_owned()];
 		},
-		Mode::SecondNsEqual => b.ns = vec!["s".to_owned(), "a".to_owned()],
 		Mode::LongDocs => {
-			let (level, k, tail, relation) = long_doc_case(x);
-			let doc = format!("{}{}", "x".repeat(k), LONG_DOC_TAILS[tail]);
-			let (da, db) = match relation {
-				0 => (Some(doc), None),
-				1 => (None, Some(doc)),
-				2 => (Some(doc.clone()), Some(doc)),
-				_ => (Some(doc.clone()), Some(format!("{doc}{}", LONG_DOC_TAILS[tail]))),
-			};
+			let (level, placement, n, tail, relation) = long_doc_case(x);
+			let doc = long_text(placement, n, LONG_TAILS[tail]);
+			let (da, db) = relation_docs(relation, doc.clone(), format!("{doc}{}", LONG_TAILS[tail]));
 			set_doc_at(&mut a, level, da);
 			set_doc_at(&mut b, level, db);
 		},
+		Mode::LongNames => {
+			let (slot, placement, n, tail) = long_name_case(x);
+			fill_slot(&mut a, &mut b, SLOTS[slot], &long_text(placement, n, LONG_TAILS[tail]), LONG_TAILS[tail]);
+		},
+		Mode::DocPairs => {
+			let (level, da, db) = doc_pair_case(x);
+			set_doc_at(&mut a, level, DOC_ALPHABET[da].map(|s| s.to_owned()));
+			set_doc_at(&mut b, level, DOC_ALPHABET[db].map(|s| s.to_owned()));
+		},
+		Mode::DocAt => {
+			let e = &sw.entries[x as usize / LONG_DOC_RELATIONS];
+			let (da, db) = relation_docs(x as usize % LONG_DOC_RELATIONS, "d1".to_owned(), "d2".to_owned());
+			if let Some(c) = doc_cell(&mut a, e) {
+				*c = da;
+			}
+			if let Some(c) = doc_cell(&mut b, e) {
+				*c = db;
+			}
+		},
 	}
 	(a, b)
+}
+
+/// the stored value of one real object that the case overwrites, and the text written (None: a short default)
+fn stored_mutation(sw: &Sweep, x: u64) -> Option<(MutCase, Option<String>)> {
+	match sw.mode {
+		Mode::Mutate => Some((sw.muts[x as usize].clone(), None)),
+		Mode::LongNames => {
+			let (slot, placement, n, tail) = long_name_case(x);
+			SLOTS[slot].mutation().map(|m| (m, Some(long_text(placement, n, LONG_TAILS[tail]))))
+		},
+		_ => None,
+	}
 }
 
 /// Runs one case through the real code and the oracle; returns a digest of what was observed.
@@ -1046,8 +1472,8 @@ fn run_case(ctx: &Ctx, sw: &Sweep, ia: usize, ib: usize, x: u64, st: &mut Stats,
 	let (a, b) = (&a, &b);
 	let text = |extra: &str| case_text(sw, ia, ib, x, a, b, extra);
 
-	if sw.mode == Mode::Mutate {
-		let tg = &sw.muts[x as usize];
+	let long_slot = (sw.mode == Mode::LongNames).then(|| long_name_case(x));
+	if let Some((tg, repl)) = &stored_mutation(sw, x) {
 		let (m, side) = (tg.m, tg.side);
 		let (mine, other) = match side {
 			Side::A => (a, b),
@@ -1058,8 +1484,8 @@ fn run_case(ctx: &Ctx, sw: &Sweep, ia: usize, ib: usize, x: u64, st: &mut Stats,
 			return 0;
 		}
 		st.eval();
-		let real = real_merge(a, b, Order::Sorted, Order::Sorted, Some(tg), false);
-		let what = format!("\nstored value overwritten: {m:?} of side {side:?} (class {:?}, field {:?}, method {:?}, parameter {:?})\nreal: {}", tg.class, tg.field, tg.method, tg.param, show_real(&real));
+		let real = real_merge(a, b, Order::Sorted, Order::Sorted, Some((tg, repl.as_deref())), false);
+		let what = format!("\nstored value overwritten: {m:?} of side {side:?} (class {:?}, field {:?}, method {:?}, parameter {:?}{})\nreal: {}", tg.class, tg.field, tg.method, tg.param, repl.as_ref().map_or(String::new(), |r| format!(", with the text {r:?}")), show_real(&real));
 		let conflict = has_target(other, tg);
 		match (&real, m.stated_class().filter(|_| conflict)) {
 			(Err(p), _) => ctx.diff(&format!("panic@{}", p.file()), &format!("merge panicked at {}: {}", p.site, p.msg), || text(&what)),
@@ -1072,11 +1498,24 @@ fn run_case(ctx: &Ctx, sw: &Sweep, ia: usize, ib: usize, x: u64, st: &mut Stats,
 				if tg.later_entry {
 					t.count("err:stored-value-conflict-in-a-later-entry");
 				}
+				if let Some((slot, ..)) = long_slot {
+					t.count(SLOT_COUNTERS[slot].1);
+				}
 				st.sample(class, || json!({"kind": "stated-conflict", "class": class, "case": text(&what)}));
 			},
 			(Ok(_), Some(class)) => ctx.diff(&format!("accepted:{class}"), &format!("both sides have the entry under the same key but disagree ({class}); the merge was not refused"), || text(&what)),
-			(Ok(Ok(Err(_))), None) => t.count("inconsistent-input(unjudged):refused"),
-			(Ok(_), None) => t.count("inconsistent-input(unjudged):merged"),
+			(Ok(Ok(Err(_))), None) => {
+				t.count("inconsistent-input(unjudged):refused");
+				if let Some((slot, ..)) = long_slot.filter(|_| conflict) {
+					t.count(SLOT_COUNTERS[slot].1);
+				}
+			},
+			(Ok(_), None) => {
+				t.count("inconsistent-input(unjudged):merged");
+				if let Some((slot, ..)) = long_slot.filter(|_| conflict) {
+					t.count(SLOT_COUNTERS[slot].0);
+				}
+			},
 		}
 		return digest_of(&real);
 	}
@@ -1143,13 +1582,24 @@ fn run_case(ctx: &Ctx, sw: &Sweep, ia: usize, ib: usize, x: u64, st: &mut Stats,
 						if sw.mode == Mode::FirstNs {
 							t.count(FIRST_NS_COUNTERS[x as usize]);
 						}
-						if sw.mode == Mode::LongDocs {
-							t.count("err:long-comments-differ");
+						match sw.mode {
+							Mode::LongDocs => t.count("err:long-comments-differ"),
+							Mode::LongNames => t.count(SLOT_COUNTERS[long_name_case(x).0].1),
+							Mode::DocPairs => {
+								let (level, da, db) = doc_pair_case(x);
+								if let (Some(da), Some(db)) = (DOC_ALPHABET[da], DOC_ALPHABET[db]) {
+									t.count(DOC_PAIR_REFUSED[doc_difference(da, db)][level]);
+								}
+							},
+							Mode::DocAt if sw.entries[x as usize / LONG_DOC_RELATIONS].later => t.count("err:comment-conflict-in-a-later-entry"),
+							_ => {},
 						}
 						st.sample(class, || json!({"kind": "stated-conflict", "class": class, "case": text(&what())}));
 					} else {
 						t.count("err:several-conflicts-at-once");
 					}
+				} else if expect.may_err.contains("namespace-name-repeated") {
+					t.count("err(accepted, statement silent):namespace-name-repeated");
 				} else if !expect.may_err.is_empty() {
 					t.count("err(accepted, statement silent):parameter-first-name-on-one-side");
 				} else {
@@ -1171,10 +1621,25 @@ fn run_case(ctx: &Ctx, sw: &Sweep, ia: usize, ib: usize, x: u64, st: &mut Stats,
 					ctx.diff(k, w, || text(&format!("{}\nexpected:\n{}", what(), render(&expect.set))));
 				}
 				t.count("ok");
-				if sw.mode == Mode::LongDocs {
-					t.count("ok:long-comment-joined");
+				match sw.mode {
+					Mode::LongDocs => t.count("ok:long-comment-joined"),
+					Mode::LongNames => t.count(SLOT_COUNTERS[long_name_case(x).0].0),
+					Mode::DocPairs => {
+						let level = doc_pair_case(x).0;
+						if doc_at(&expect.set, level).is_some_and(|d| d.is_empty()) {
+							t.count(EMPTY_DOC_KEPT[level]);
+						}
+					},
+					Mode::DocAt => {
+						let e = &sw.entries[x as usize / LONG_DOC_RELATIONS];
+						if e.later && doc_of(&expect.set, e).is_some() {
+							t.count("ok:comment-at-a-later-entry");
+						}
+					},
+					Mode::SecondNs => t.count("ok:namespace-name-repeated"),
+					_ => {},
 				}
-				if !expect.may_err.is_empty() {
+				if expect.may_err.contains("parameter-first-name-on-one-side") {
 					t.count("ok:parameter-first-name-on-one-side-kept");
 				}
 				if sw.mode == Mode::Plain {
@@ -1255,8 +1720,11 @@ fn main() {
 	] {
 		ctx.floor(&format!("refusals whose only conflict is {class}"), 1, total.get(&format!("err:{class}")));
 	}
+	if FIRST_NS_COUNTERS.len() != FIRST_NS_VARIANTS.len() || SLOT_COUNTERS.len() != SLOTS.len() {
+		vcore::machinery_fail("counter tables out of step");
+	}
 	for (i, name) in FIRST_NS_COUNTERS.iter().enumerate() {
-		ctx.floor(&format!("refusals for B's namespaces {:?}", FIRST_NS_VARIANTS[i]), 1, total.get(name));
+		ctx.floor(&format!("refusals for the headers (A, B) = {:?}", FIRST_NS_VARIANTS[i]), 1, total.get(name));
 	}
 	for level in ["mappings", "class", "field", "method", "parameter"] {
 		ctx.floor(&format!("refusals whose only conflict is a {level} comment differing by a blank"), 1, total.get(&format!("err:comments-differ-only-by-a-blank:{level}")));
@@ -1274,9 +1742,32 @@ fn main() {
 	ctx.floor("merged entries with the same comment on both sides", 100, total.get("merged-comment:equal-on-both-sides"));
 	ctx.floor("merged pairs where the insertion order is observable (more than one entry at a level)", 1000, total.get("order:pairs-with-more-than-one-entry-at-a-level"));
 	ctx.floor("order variants compared with the sorted order", 1000, total.get("order:variants-compared"));
-	let long_each = (LONG_DOC_LEVELS * (LONG_DOC_MAX + 1) * LONG_DOC_TAILS.len()) as u64;
-	ctx.floor("refusals of long comments that differ (every level x length x width of the last character)", long_each, total.get("err:long-comments-differ"));
+	let long_each = (LONG_DOC_LEVELS * LONG_TEXTS * LONG_TAILS.len()) as u64;
+	ctx.floor("refusals of long comments that differ (every level x placement x length x width of the special character)", long_each, total.get("err:long-comments-differ"));
 	ctx.floor("merges of long comments (one side only, equal on both)", 3 * long_each, total.get("ok:long-comment-joined"));
+	// every text of `long_text` in every slot, at least in the pair in which both sides have every entry
+	let texts = (LONG_TEXTS * LONG_TAILS.len()) as u64;
+	for (slot, (ok, err)) in SLOTS.iter().zip(SLOT_COUNTERS) {
+		match slot.demand() {
+			SlotDemand::Merge => ctx.floor(&format!("merges with a long text in the slot {slot:?}"), texts, total.get(ok)),
+			SlotDemand::Refuse => ctx.floor(&format!("refusals with a long text in the slot {slot:?}"), texts, total.get(err)),
+			SlotDemand::Silent => ctx.floor(&format!("merges or refusals (statement silent) with a long text in the slot {slot:?}"), texts, total.get(ok) + total.get(err)),
+		}
+	}
+	// every ordered pair of different comments of the alphabet, at every level
+	let docs: Vec<&str> = DOC_ALPHABET.iter().flatten().copied().collect();
+	for (k, kind) in DOC_DIFFERENCES.iter().enumerate() {
+		let pairs = docs.iter().flat_map(|x| docs.iter().map(move |y| (*x, *y))).filter(|(x, y)| x != y && doc_difference(x, y) == k).count() as u64;
+		for (l, level) in LEVEL5.iter().enumerate() {
+			ctx.floor(&format!("refusals of two {level} comments that differ by: {kind}"), pairs.max(1), total.get(DOC_PAIR_REFUSED[k][l]));
+		}
+	}
+	for (l, level) in LEVEL5.iter().enumerate() {
+		ctx.floor(&format!("merges that keep an empty {level} comment"), 3, total.get(EMPTY_DOC_KEPT[l]));
+	}
+	ctx.floor("refusals whose only conflict is a comment of an entry that is not the first of its map", 100, total.get("err:comment-conflict-in-a-later-entry"));
+	ctx.floor("merges with a comment at an entry that is not the first of its map", 1000, total.get("ok:comment-at-a-later-entry"));
+	ctx.floor("merges of two sets whose header repeats a namespace name (statement silent: judged when merged)", 1, total.get("ok:namespace-name-repeated") + total.get("err(accepted, statement silent):namespace-name-repeated"));
 
 	let coverage = json!({
 		"evaluations": total.evaluations,
@@ -1284,7 +1775,9 @@ fn main() {
 		"rule": "one evaluation = one call of the real Mappings::merge on two freshly built real Mappings<2,_> objects (one per pair and insertion-order variant), result projected with from_quill::<3> and judged by the reference join + projection law. distinct_nontrivial = distinct merged sets (as sets) among successful merges in which both A and B have at least one class",
 		"exhaustive": true,
 		"samples": total.samples,
-		"bounds": {"sweeps": bounds, "cases": pairs, "namespaces": {"A": ["s", "a"], "B": ["s", "b"], "B_first_namespace_differs": FIRST_NS_VARIANTS}},
+		"bounds": {"sweeps": bounds, "cases": pairs, "namespaces": {"A": ["s", "a"], "B": ["s", "b"], "first_namespaces_differ(A,B)": FIRST_NS_VARIANTS, "a_name_repeated(A,B)": SECOND_NS_VARIANTS},
+				"long_texts": {"special_characters": LONG_TAILS, "placements": ["n ASCII + c", "n ASCII + c + 100 ASCII", "c + n ASCII", "100 ASCII + c + n ASCII"], "n": [0, LONG_MAX], "slots": SLOTS.iter().map(|s| format!("{s:?}")).collect::<Vec<_>>(), "comment_levels": LEVEL5},
+				"comment_alphabet": DOC_ALPHABET},
 		"outcomes": total.outcomes,
 	});
 	ctx.finish(coverage, &[
@@ -1293,7 +1786,9 @@ fn main() {
 		"comments are compared as strings: two comments that differ only by a leading / trailing blank are differing comments (must be refused)",
 		"the placement of names does not depend on what the names are: a name equal to the entry's first name, or equal on both sides, is a name like any other",
 		"conflicting descriptors / parameter indices can only exist as stored values that disagree under the same key; they are produced by overwriting the public info.desc / info.index of one real object. A stored *first name* that disagrees with its key is outside the statement and explored for panics only",
-		"equal names of the second namespaces of A and B are not in the statement: Ok (judged like any merge) or Err are accepted",
+		"a namespace name that occurs twice (the second namespaces of A and B equal, or a second namespace named like the shared first one) is not in the statement: Ok (judged like any merge) or Err are accepted",
+		"a comment that is the empty string is a comment the side has: it is kept when the other side has none and it differs from a non-empty comment",
+		"two comments / first namespaces / parameter first names are equal only if they are the same string: differing by case, white space, a line end or Unicode normalisation is differing",
 		"the order of the entries in the result is not part of the property; results are compared as sets",
 		"mapmodel::{to_quill_ordered, from_quill} convert faithfully (public API only)",
 	]);
@@ -1320,11 +1815,10 @@ fn replay(ctx: &'static Ctx, path: &std::path::Path) -> ! {
 	}
 	let (a, b) = inputs(&sw, ia, ib, x);
 	println!("{}", case_text(&sw, ia, ib, x, &a, &b, ""));
-	if sw.mode == Mode::Mutate {
-		let tg = &sw.muts[x as usize];
-		println!("stored value overwritten: {tg:?}");
+	if let Some((tg, repl)) = &stored_mutation(&sw, x) {
+		println!("stored value overwritten: {tg:?} (text: {repl:?})");
 		if has_target(if tg.side == Side::A { &a } else { &b }, tg) {
-			println!("real: {}", show_real(&real_merge(&a, &b, Order::Sorted, Order::Sorted, Some(tg), true)));
+			println!("real: {}", show_real(&real_merge(&a, &b, Order::Sorted, Order::Sorted, Some((tg, repl.as_deref())), true)));
 		}
 	} else {
 		let e = reference_merge(&a, &b);
